@@ -32,7 +32,9 @@ var c15Names = []string{"a", "aa", "a_", "A", "_a", "a1", "z", "Z9", "y_", "n234
 	// upper-case names that contain a register name (AL in VALUE, BL in TABLE, GS in FLAGS, AX in MAXLEN, ES in RESULT, ...)
 	"VALUE", "TABLE", "FLAGS", "MAXLEN", "RESULT", "XEAX", "CSEG", "AXIS", "ESP_SAVE", "CR0_COPY",
 	// names that BEGIN with a register name, a mnemonic, a directive or a reserved word
-	"AL1", "SPtr", "INIT", "RETRY", "ADDR", "MOVE", "CALLBACK", "DBG", "ORGX", "EQUAL", "DWORDS", "BYTES", "SHORTCUT", "NEARBY", "FARM", "GLOBALS", "EXTERNAL", "RESBUF", "PTR1", "HLTX"}
+	"AL1", "SPtr", "INIT", "RETRY", "ADDR", "MOVE", "CALLBACK", "DBG", "ORGX", "EQUAL", "DWORDS", "BYTES", "SHORTCUT", "NEARBY", "FARM", "GLOBALS", "EXTERNAL", "RESBUF", "PTR1", "HLTX",
+	// names that could be read as numbers or as lower-case registers: hex digits (+ h), digits after a letter, ah/bh/ax in lower case
+	"each", "beach", "a0h", "fach", "ah", "bx", "e820", "f00d", "dead", "x86", "b", "c2", "h"}
 
 func c15Fill(tmpl string, names [3]string) string {
 	s := strings.ReplaceAll(tmpl, "{A}", names[0])
@@ -43,7 +45,7 @@ func c15Fill(tmpl string, names [3]string) string {
 func c15Scenario(tier string) *core.Scenario {
 	names := c15Names
 	if tier != "thorough" {
-		names = []string{"a", "aa", "A", "a_", "aA", "prefix89", "prefix89x", "prefix89xy", "n234567890123456789012345678901234567890", "n23456789012345678901234567890123456789X", "Z9", "kbd_wait", "mmio_done", "xmm_save", "Kick", "VALUE", "FLAGS", "MAXLEN", "AXIS", "INIT", "EQUAL", "SHORTCUT"}
+		names = []string{"a", "aa", "A", "a_", "aA", "prefix89", "prefix89x", "prefix89xy", "n234567890123456789012345678901234567890", "n23456789012345678901234567890123456789X", "Z9", "kbd_wait", "mmio_done", "xmm_save", "Kick", "VALUE", "FLAGS", "MAXLEN", "AXIS", "INIT", "EQUAL", "SHORTCUT", "each", "a0h", "dead", "ah"}
 	}
 	ref := [3]string{"first_sym", "second_sym", "third_sym"}
 	return &core.Scenario{
